@@ -26,7 +26,10 @@ def psd_clause(cl, rng, n, replay):
         width = float(rng.choice([0.0, 0.1, 0.5, 1.0]))
         nfft = int(rng.choice([N if N % 2 == 0 else N + 1, 256 if N <= 256 else 512, 1024]))
         scale = float(10.0 ** rng.integers(-4, 4))
-        xs = [scale * (rng.normal(0, 1, N) + rng.uniform(-1, 1)) for _ in range(W)]
+        if j % 5 == 4:
+            # a long record: more windows than any batch a vectorised implementation might form (65 .. 150, not a multiple of 64 / 32 / 50), the level drifting over the record
+            W = int(rng.choice([65, 70, 97, 129, 150]))
+        xs = [scale * (1.0 + (4.0 * i / W if W > 8 else 0.0)) * (rng.normal(0, 1, N) + rng.uniform(-1, 1)) for i in range(W)]
         short_last = W >= 2 and j % 3 == 1          # what split() hands on when the record ends with the last window: one sample fewer
         if short_last:
             xs[-1] = xs[-1][:-1]
